@@ -294,6 +294,22 @@ def check_B7(ctx, facts):
                'get_keyspace_list reads the persistent registry table keyspaces are registered in' if reads else
                'get_keyspace_list does not read the persistent keyspace registry (it answers from process-local state): after closing and '
                'reopening the database the keyspaces on disk are not listed, so a restarted node rebuilds nothing')
+    # ---- LMDB: the registry only grows: keyspace handles are cached per process and a keyspace is registered only when its handles
+    #      are created, so a name deleted from the registry is never registered again while later writes still reach its databases
+    if reg_types:
+        shrinks = []
+        for b in facts.bodies.values():
+            if b.crate != 'datacake_lmdb' or b.d['promoted']:
+                continue
+            for _b, t in b.calls():
+                n = cname(t)
+                if n and n.startswith('heed::') and last_seg(n) in ('delete', 'clear', 'delete_range', 'del_current') and 'atabase' in n and t['args'] \
+                        and op_local(t['args'][0]) is not None and b.local_ty(op_local(t['args'][0])).replace('&', '').strip() in reg_types:
+                    shrinks.append((b, t))
+        ctx.ob('C17.B7', 'lmdb|registry-never-shrinks', not shrinks, site(shrinks[0][0], shrinks[0][1]['cs']) if shrinks else '',
+               'no code path deletes a name from the persistent keyspace registry' if not shrinks else
+               'a keyspace name is deleted from the persistent registry: its database handles stay cached in the process and a keyspace is only registered '
+               'when its handles are created, so later acknowledged writes to it are stored but the keyspace is no longer listed — a restarted node rebuilds nothing for it')
     # ---- SQLite: one table
     tables_ = {}
     create = None
